@@ -39,6 +39,7 @@ MIN_COUNTERS = {"invariant_evaluations": 3000, "allocate_postconditions": 200, "
 MIN_NONTRIVIAL = {"quick": 300, "thorough": 5000}
 WALL_BUDGET = {"quick": 200, "thorough": 2400}
 
+KF_STOP = "epr-request:survives-stop-application"
 _state = {"ctx": None, "viol": None, "installed": False}
 
 
@@ -469,6 +470,32 @@ def run_history(ctx, ops):
                             f"{ {k: (snap[k], now[k]) for k in diff} }"), None
         if op[0] == "stop" and res == "done":
             ctx.count("stops_checked")
+            # nothing of the stopped application may stay behind - also no entanglement request it left outstanding (a subroutine
+            # that returned without waiting, or failed): the next application registered under the id would inherit it
+            ex = n["ex"]
+            app = op[2]
+            stale = [(k, len(q)) for tab in (ex._epr_recv_requests, ex._epr_create_requests) for k, q in tab.items()
+                     if q and k[1] // 10 == app]
+            if stale:
+                ctx.fail({"kind": "walk", "ops": [list(o) for o in ops[:i + 1]]},
+                         f"operation {i} {op}: after stop_application({app}) the controller still holds entanglement request(s) of that "
+                         f"application on (remote, socket) {[k for k, _ in stale]}: the next application registered as {app} gets their "
+                         f"pairs mapped into its unit module and their results written into its arrays", key=KF_STOP)
+                # (the walk goes on from a clean state: the harness removes what the stop left behind)
+                for tab in (ex._epr_recv_requests, ex._epr_create_requests):
+                    for k, _ in stale:
+                        if k in tab:
+                            del tab[k][:]
+                gone = [r for r in ex._pending_epr_responses if getattr(r, "purpose_id", -1) // 10 == app]
+                mapped = {p for um in ex._qubit_unit_modules.values() for p in um if p is not None}
+                for r in gone:
+                    ex._pending_epr_responses.remove(r)
+                    pos = getattr(r, "logical_qubit_id", None)
+                    if pos is not None and pos not in mapped:
+                        ex._used_physical_qubit_addresses.discard(pos)
+                        ex.inflight_phys.discard(pos)
+                n["requests"] = [(a, sck) for a, sck in n["requests"] if a != app]
+                n["early"] = [sck for sck in n["early"] if sck // 10 != app]
         if sum(len(m["active"]) for m in w.nodes.values()) >= 2:
             multi = True
         states.add(abstract_state(w))
